@@ -572,7 +572,7 @@ var numToks = []string{"0", "7", "12", "-3", "+45", "3.25", "-0.5", ".5", "5.", 
 	"1e308", "4.9e-324", "2e-324", "9007199254740993", "123456789012345678901234567890", "1.7976931348623157e308", "00012",
 	"1e0", "0.30000000000000004", "2.2250738585072011e-308", "17.5E+0", "-.25", "0x10", "0XfF", "-0x1"}
 
-// … and texts outside that fragment (Model only): what fmt.Fscanf/strconv accept or reject beyond C's numerals
+// … and texts outside that fragment (Model only): what only Go's fmt/strconv would accept, broken numerals, non-ASCII
 var numExotic = []string{"inf", "nan", "-inf", "+Inf", "NaN", "1_0", "0x1p4", "1p3", "1e", "1e+", "abc", "-", ".", "1e999", "--5",
 	"1.5.5", "0x", "n5", "na", "i", "in7", "+.e1", "1e5000", "0x1.8p1", "1P3", "0x_1p1", "1__0", "_1", "1_", "0b101", "1e1_0",
 	"\xc2\xa07", "\xe2\x80\x837", "\xe3\x80\x80 8", "\xe27", "\xff1", "1.7976931348623159e308", "-1e400", "0x1p1024", "0x1p-1080",
@@ -583,14 +583,12 @@ var numBlanksLF = []string{"\n", "\r\n", " \n ", " ", "\t"}
 
 func genNumbers(r *Rng, n int) []byte {
 	b := make([]byte, 0, n+40)
-	// one text in five separates the numerals by line feeds (every "*n" after the first then shows the recorded
-	// finding C19-readnum-rejects-newline); the others use the other kinds of white space, so that whole histories
-	// stay comparable with the Spec
-	blanks := numBlanks
-	if r.Chance(20) {
-		blanks = numBlanksLF
+	// the numerals are separated by every kind of white space; one text in three is "one number per line"
+	blanks := append(append([]string{}, numBlanks...), numBlanksLF...)
+	if r.Chance(33) {
+		blanks = numBlanksLF[:3]
 	}
-	decimal := len(numToks) - 3 // the last three are hexadecimal (recorded finding C19-readnum-rejects-hex)
+	decimal := len(numToks) - 3 // the last three are hexadecimal
 	if r.Chance(50) {
 		b = append(b, Pick(r, blanks)...)
 	}
@@ -598,7 +596,7 @@ func genNumbers(r *Rng, n int) []byte {
 		switch c := r.Intn(100); {
 		case c < 8:
 			b = append(b, Pick(r, numExotic)...)
-		case c < 11:
+		case c < 16:
 			b = append(b, numToks[decimal+r.Intn(3)]...)
 		default:
 			b = append(b, numToks[r.Intn(decimal)]...)
@@ -736,13 +734,14 @@ func genIoCase(r *Rng, maxOps int) ([]Op, string) {
 						flen = 0
 					}
 					age(false, false)
-				case k < 82:
+				case k < 80:
 					add("ioinputname") // io.input(path): mode "r", becomes the default input
 					mode, rd, wr = "r", true, false
 					age(true, false)
-				case k < 87:
+				case k < 90:
 					add("iooutputname") // io.output(path): mode "w", becomes the default output
 					mode, rd, wr = "w", false, true
+					flen = 0
 					age(false, true)
 				default:
 					add("iolinesname") // io.lines(path): mode "r", the handle belongs to the iterator
@@ -771,16 +770,8 @@ func genIoCase(r *Rng, maxOps int) ([]Op, string) {
 				case 9:
 					add("tostr")
 				case 10:
-					// a closed handle as default file (Lua 5.1: error; gopher-lua accepts it)
-					if !r.Chance(35) {
-						add("iotype")
-					} else if r.Bool() {
-						add("ioinput")
-						defIn = "cur"
-					} else {
-						add("iooutput")
-						defOut = "cur"
-					}
+					// a closed handle as default file: an error, the default stays what it was
+					add(Pick(r, []string{"ioinput", "iooutput"}))
 				case 11:
 					if defIn != "std" {
 						add(Pick(r, []string{"ioread", "iolines"}))
@@ -1185,7 +1176,7 @@ func runC19(run *Run) {
 		"offsets, negative, past EOF), flush, setvbuf no/full/line × sizes, close, operations on the closed handle, reopen in any mode, " +
 		"io.input/io.output (handle | path), io.read/io.write/io.flush/io.close on the default files (current or stale handle), io.lines(path) incl. running " +
 		"it to the end, io.lines(), io.type, tostring, disk snapshots}; content profiles: short lines, lines longer than the 4096-byte buffer, no newline, " +
-		"CRLF, binary, terminators on the buffer boundary, numerals (C numerals, hex, and texts only fmt.Fscanf accepts) separated by every kind of white space; " +
+		"CRLF, binary, terminators on the buffer boundary, numerals (C numerals, hex, and texts only Go's fmt/strconv would accept) separated by every kind of white space; " +
 		"≈ 88 % of histories obey the ISO C discipline (seek/flush between read and write), the rest are compared with the Model only; every result and every " +
 		"disk snapshot is compared with the Lean Model (exact; a number = correctly rounded value of the token, checked in exact arithmetic) and the Spec (one " +
 		"cursor); plus bounded-exhaustive sweeps (tests): numeral shapes × leading white space × follower × position across the buffer boundary, line iterators " +
@@ -1193,10 +1184,10 @@ func runC19(run *Run) {
 		"distinct = distinct op-kind skeletons with >= 3 ops"
 	run.Assume = []string{
 		"OS file semantics (read/write/lseek, O_APPEND, zero-fill past EOF) and Go bufio.Reader/Writer, io.ReadAll are modelled, not verified",
-		"`*n`: fmt.Fscanf/bufio.ReadRune/utf8 and the syntax+range part of strconv.ParseFloat are modelled; that ParseFloat returns the correctly rounded value is checked per observation (exact arithmetic), Ldexp for `1.5p3` tokens is not",
+		"`*n`: utils.go readBufioNumber / luaNumeralBase (fixes/C19-6) are modelled; that parseNumber (strconv.ParseFloat) returns the correctly rounded value (±Inf out of range) is checked per observation in exact arithmetic, not proved",
 		"default files: stdin/stdout are never touched; a default slot holds the current handle or an earlier (closed) handle of the file",
 		"one handle at a time on a file (reopen only after close); regular files only (no pipes, no popen)",
-		"the harness is built against a tree with fixes/C19-1..4 applied (the Model describes the repaired functions)"}
+		"the Model describes the tree with fixes/C19-1..9 applied"}
 	root := NewRng(uint64(run.Seed) ^ 0xC19)
 	var cases []Case
 	for i, c := range loadCorpus("C19") {
